@@ -34,6 +34,19 @@ func heapOpsFor(g *gen.G, richness float64) []heapOp {
 	if len(a.Nodes) > 0 && g.Chance(0.7) {
 		b = perturbed(g, a)
 	}
+	// edge lists with repeated (source, type) keys and spare capacity, as editing leaves behind
+	for _, l := range []*sbom.NodeList{a, b} {
+		if len(l.Edges) > 0 && len(l.Nodes) > 0 && g.Chance(0.5) {
+			e := l.Edges[g.Int(len(l.Edges))]
+			l.Edges = append(l.Edges, &sbom.Edge{Type: e.Type, From: e.From, To: []string{l.Nodes[g.Int(len(l.Nodes))].Id, "zz"}})
+		}
+		if g.Chance(0.5) {
+			l.RootElements = append(make([]string, 0, len(l.RootElements)+3), l.RootElements...)
+			for _, e := range l.Edges {
+				e.To = append(make([]string, 0, len(e.To)+3), e.To...)
+			}
+		}
+	}
 	pickNode := func(nl *sbom.NodeList) *sbom.Node {
 		if len(nl.Nodes) == 0 {
 			return g.Node("x", richness)
@@ -202,7 +215,7 @@ func runC11(seed int64, n int, dir string, tier string) *Report {
 				rep.Fail(Failure{What: "an operation that should only read changed its operand", Detail: op.name + ": " + msg, Input: in})
 			}
 			c := fmt.Sprintf("(HUnchanged %s %s %s %s)", ob.before.Coq(), coqVals(ob.opsBefore), ob.after.Coq(), coqVals(ob.opsAfter))
-			if len(cf.Items) < 6*n {
+			if len(cf.Items) < 12*n {
 				cf.Add(c)
 			}
 			rep.NoteCase(op.name+c[:min(len(c), 4000)], len(ob.before.Cells) >= 12, in)
